@@ -290,7 +290,10 @@ def judge_operator(model, cls, name, node, order, world=None, reflected=None):
             if name not in kc.members:
                 selves.append(_node(kn, a, b))
     elif cls.name in ("Sum", "Product"):
-        selves = [_node(cls.name, a, b)]
+        # (a nested node of the same class among the operands: splicing must
+        # keep the operands in the order they were written)
+        selves = [_node(cls.name, a, b),
+                  _node(cls.name, a, _node(cls.name, b, _var("b2")))]
     else:
         # an override in another node class: an instance with variables for
         # children (a power gets the exponent 2: (a**2)**0.5 is |a|, not a)
